@@ -148,23 +148,33 @@ def run(tier, seed):
                 features={"exc": r[1]},
             )
     # oversize sequences at the configured bound +-1
-    n = dds.get_option("hash.max_sequence_size")
-    for name, mk in (
-        ("list", lambda k: list(range(k))),
-        ("tuple", lambda k: tuple(range(k))),
-        ("dict", lambda k: dict((i, i) for i in range(k))),
-    ):
-        for k in (n - 1, n, n + 1):
-            r = hash_all([mk(k)])[0]
-            rep.count("oversize_probes")
-            expect_err = k > n
-            ok = (r[0] == "dds" and r[1] == "SEQUENCE_TOO_LONG") if expect_err else (r[0] == "sig")
-            if not ok:
-                rep.violate(
-                    "%s of length %d (bound %d): outcome %r" % (name, k, n, r),
-                    {"kind": "oversize", "type": name, "len": k, "outcome": r},
-                    mechanism="oversize-" + name,
-                )
+    # ... under every kind of value the option accepts: the default, small bounds, 0 and None (= no limit)
+    n_default = dds.get_option("hash.max_sequence_size")
+    for n in (n_default, 3, 1, 0, None):
+        try:
+            dds.set_option("hash.max_sequence_size", n)
+        except BaseException as e:
+            rep.violate("set_option('hash.max_sequence_size', %r) raised %s" % (n, type(e).__name__), {"kind": "oversize", "bound": n}, mechanism="oversize-option-rejected")
+            continue
+        for name, mk in (
+            ("list", lambda k: list(range(k))),
+            ("tuple", lambda k: tuple(range(k))),
+            ("dict", lambda k: dict((i, i) for i in range(k))),
+        ):
+            for k in ((n - 1, n, n + 1) if n is not None else (0, 5, n_default + 1)):
+                if k < 0:
+                    continue
+                r = hash_all([mk(k)])[0]
+                rep.count("oversize_probes")
+                expect_err = n is not None and k > n
+                ok = (r[0] == "dds" and r[1] == "SEQUENCE_TOO_LONG") if expect_err else (r[0] == "sig")
+                if not ok:
+                    rep.violate(
+                        "%s of length %d (hash.max_sequence_size=%r): outcome %r" % (name, k, n, r),
+                        {"kind": "oversize", "type": name, "len": k, "bound": n, "outcome": r},
+                        mechanism="oversize-" + name,
+                    )
+    dds.set_option("hash.max_sequence_size", n_default)
     for bad in (object(), {1, 2}, b"ab", 1 + 2j):
         r = hash_all([bad])[0]
         rep.count("unsupported_type_probes")
